@@ -153,7 +153,7 @@ def scans(facts):
 def bounded(tier, seed):
     return [{"name": "C10.bounded", "script": "native/bounded_C10.py", "timeout": 3000,
              "scope": "all run sequences of length <=2, every length-3 sequence of one group under collect_paths, and a stride sample of the other length-3 "
-                      "sequences (thorough: all of length <=4 sampled) over {2 groups} x {new, reused instance} x {collect_paths, fast_forward_by_line} x "
+                      "sequences (thorough: all of length <=2, a 1-in-4 slice of length 3, a 1-in-400 slice of length 4, every length-4 history of one group under collect_paths) over {2 groups} x {new, reused instance} x {collect_paths, fast_forward_by_line} x "
                       "{same second, +1 s, 12:59->13:00, across midnight} with a scripted clock"}]
 
 
